@@ -23,7 +23,7 @@ ENGINES = [
                        "SQLAlchemy events, enumerated over every point of a workload"},
     {"name": "models", "path": "vlib/checks", "serves_properties": ["C13", "C14", "C15", "C17", "C18", "C19", "C24", "C25", "C37"],
      "kind_free_text": "offline checkers and relation monitors over the real pure functions"},
-    {"name": "io", "path": "vlib/checks", "serves_properties": ["C04", "C16", "C30", "C34", "C35"],
+    {"name": "io", "path": "vlib/checks", "serves_properties": ["C04", "C16", "C29", "C30", "C31", "C32", "C34", "C35"],
      "kind_free_text": "round-trip / cross-process differential monitors"},
 ]
 
@@ -171,6 +171,17 @@ reg("C30", "io", "op-sequence monitor on real files comparing object hashes with
     "Sequences of redun and external file operations per value class; after redun operations the object's hash must "
     "be fresh, is_valid() must agree with hash equality, content-hashed values must follow bytes, missing paths hash "
     "deterministically.", "Local filesystem only.")
+reg("C29", "io", "execution monitor on real script runs (cat-as-interpreter, markers, staging files on disk)",
+    "Generated command texts run through exec_script, the heredoc wrapper and script_task with /bin/cat as the "
+    "interpreter so that stdout is the exact text executed; script() with generated staging structures is checked for "
+    "staged inputs, unstaged outputs and result shape.", "Local executor; /bin/sh and /bin/cat present.")
+reg("C31", "io", "round-trip monitor on record_value/get_value under generated storage configurations",
+    "Values are recorded with the bytes inline, offloaded to a value store or to a FileCache file under generated size "
+    "thresholds, read back, recorded again, and read after the offloaded bytes were deleted.", "SQLite file backend.")
+reg("C32", "io", "differential monitor: real oneshot entry point over scratch files vs local call",
+    "The real protocol functions and `redun oneshot` (in-process, and a real subprocess for a slice) are run for single "
+    "and array jobs under every index variable; outcomes, per-element isolation, job-name round trips and reuniting on "
+    "fake listings are compared with local execution / the generated listing.", "Same code on both sides; local scratch.")
 
 
 def build():
